@@ -31,7 +31,7 @@ type c12Route struct {
 	Method  string
 	Pattern string
 	Mk      func(tok string) (host, path string)
-	TSR     bool // reached through an ignored trailing slash
+	TSR     bool                                        // reached through an ignored trailing slash
 	MkVar   func(tok string, v int) (host, path string) // generated routes: bit i of v gives parameter i a value that is also a static text of the pool
 }
 
